@@ -611,6 +611,93 @@ impl Cluster {
     }
 
     pub async fn step(&mut self, ev: &str) {
+        if let Some(k) = ev.strip_prefix("h:").and_then(|k| k.parse::<u64>().ok()) {
+            return self.ev_heal(k).await;
+        }
+        self.step1(ev).await;
+    }
+
+    /// C32: `k` rounds of the fixed fair schedule (same rule as Model/ClusterHeal.lean `fairRound`).
+    async fn ev_heal(&mut self, k: u64) {
+        let first_msg = self.next_msg;
+        let mut acks = vec![];
+        for r in 0..k {
+            // 1. finish pending elections
+            for cand in 1..=self.n {
+                if matches!(self.nb(cand).slot, Slot::Electing(_)) {
+                    self.run_election_events(cand, &mut acks).await;
+                }
+            }
+            // 2. heartbeat round of the best leader, or an election of the next node in rotation
+            let mut best: Option<(u32, u64)> = None;
+            for i in 1..=self.n {
+                if let Slot::Up(raft) = &self.nb(i).slot {
+                    if matches!(raft.role, RaftRole::Leader(_)) {
+                        let t = raft.role.current_term();
+                        if best.map_or(true, |(_, bt)| t > bt) {
+                            best = Some((i, t));
+                        }
+                    }
+                }
+            }
+            match best {
+                Some((l, _)) => {
+                    self.step1(&format!("t:{}", l)).await;
+                    acks.append(&mut self.new_acks);
+                    let mut fuel = 2 * self.msgs.len() + 2;
+                    while fuel > 0 {
+                        fuel -= 1;
+                        let Some((&id, m)) = self.msgs.iter().next() else { break };
+                        let ev = match m {
+                            Msg::Ae { to, .. } => {
+                                if self.is_up(*to) { format!("a:{}", id) } else { format!("d:{}", id) }
+                            }
+                            Msg::Resp { .. } => format!("r:{}", id),
+                        };
+                        self.step1(&ev).await;
+                        acks.append(&mut self.new_acks);
+                    }
+                }
+                None => {
+                    // the ready node with the most up-to-date log (last term, then last index; smallest id first)
+                    let mut bestc: Option<(u32, u64, u64)> = None;
+                    for i in 1..=self.n {
+                        if let Slot::Up(raft) = &self.nb(i).slot {
+                            let l = raft.ctx.raft_log().last_log_id().unwrap_or(LogId { index: 0, term: 0 });
+                            let better = match bestc {
+                                None => true,
+                                Some((_, bt, bi)) => l.term > bt || (l.term == bt && l.index > bi),
+                            };
+                            if better {
+                                bestc = Some((i, l.term, l.index));
+                            }
+                        }
+                    }
+                    let _ = r;
+                    if let Some((cand, _, _)) = bestc {
+                        self.step1(&format!("t:{}", cand)).await;
+                        self.step1(&format!("t:{}", cand)).await;
+                        self.run_election_events(cand, &mut acks).await;
+                    }
+                }
+            }
+        }
+        self.new_msgs = self.msgs.keys().copied().filter(|id| *id >= first_msg).collect();
+        self.new_acks = acks;
+    }
+
+    async fn run_election_events(&mut self, cand: u32, acks: &mut Vec<u64>) {
+        for q in 1..=self.n {
+            if q != cand {
+                self.step1(&format!("vq:{}:{}", cand, q)).await;
+                self.step1(&format!("vr:{}:{}", cand, q)).await;
+            }
+        }
+        self.step1(&format!("ve:{}", cand)).await;
+        acks.append(&mut self.new_acks);
+    }
+
+    async fn step1(&mut self, ev: &str) {
         self.new_msgs.clear();
         self.new_acks.clear();
         let p: Vec<&str> = ev.split(':').collect();
@@ -1075,6 +1162,9 @@ impl Cluster {
     }
     pub fn n(&self) -> u32 {
         self.n
+    }
+    pub fn log_len(&self, id: u32) -> u64 {
+        self.nodes[(id - 1) as usize].engine.log.last_index()
     }
     pub fn commit_of(&self, id: u32) -> u64 {
         match &self.nodes[(id - 1) as usize].slot {
